@@ -16,6 +16,7 @@ void harness(void)
   int in_n = nondet_int(), in_bs = nondet_int();
   __CPROVER_assume(0 <= in_n && in_n <= NMAX);
   __CPROVER_assume(in_bs >= 2 && in_bs % 2 == 0);
+  g_t = nondet_int();   /* ghost index: arbitrary (globals are zero-initialised unless assigned) */
   __CPROVER_assume(0 <= g_t && g_t < in_bs);
   char *from[NMAX]; int row[NMAX];
   for (int i = 0; i < NMAX; i++) {
